@@ -1,11 +1,15 @@
-import CffiVerif.Model.CInt
+import CffiVerif.Model.IntCast
 import CffiVerif.Model.Proto
 open CffiVerif CffiVerif.CInt CffiVerif.Proto
 
 /-!
-`cast <bytes> <kind> int <v> | bool <0|1> | float <m> <e> | bytes <hex> | str <cp>… | ptr <addr>`
-   answer: `ok <bytes of the cdata> <int() of it>` or `err <ErrKind>`
-`toptr <v>` — `ffi.cast("void *", v)`: answer `ok <address>`
+`cast <bytes> <kind> <source…>` — answer `ok <bytes of the cdata> <int() of it>` or `err <ErrKind>`.
+Sources:
+  `int <v>` | `bool <0|1>` | `float <F>` | `bytes <hex>` | `str <cp>…` | `ptr <addr>`
+  | `cdint <bytes> <kind> <hex>` | `cdfloat <F>` | `cdother` | `obj <hasIndex 0|1> <R> <R>` | `nonum`
+  F = `fin <m> <e>` | `inf` | `-inf` | `nan`        (m * 2^e)
+  R = `none` | `i:<v>` | `f:<m>:<e>` | `f:inf` | `f:-inf` | `f:nan` | `other`   (result of __int__, __float__)
+`toptr <source…>` — `ffi.cast("void *", x)`: answer `ok <address>` or `err <ErrKind>`
 -/
 
 def kind? : String → Option Kind
@@ -18,14 +22,38 @@ def type? (b k : String) : Option IntType := do
   let kd ← kind? k
   pure { name := "", width := w, kind := kd }
 
+def float? : List String → Option FloatVal
+  | ["fin", m, e] => do pure (.finite (← int? m) (← int? e))
+  | ["inf"] => some (.inf false)
+  | ["-inf"] => some (.inf true)
+  | ["nan"] => some .nan
+  | _ => none
+
+def res? (s : String) : Option (Option PyRes) :=
+  if s == "none" then some none
+  else if s == "other" then some (some .other)
+  else match s.splitOn ":" with
+    | ["i", v] => (int? v).map (fun v => some (.int v))
+    | ["f", "inf"] => some (some (.float (.inf false)))
+    | ["f", "-inf"] => some (some (.float (.inf true)))
+    | ["f", "nan"] => some (some (.float .nan))
+    | ["f", m, e] => do pure (some (.float (.finite (← int? m) (← int? e))))
+    | _ => none
+
 def src? : List String → Option CastSrc
   | ["int", v] => (int? v).map .int
   | ["bool", "0"] => some (.bool false)
   | ["bool", "1"] => some (.bool true)
-  | ["float", m, e] => do pure (.float (← int? m) (← int? e))
+  | "float" :: f => (float? f).map .float
   | ["bytes", h] => (hexBytes? h).map .bytes
   | "str" :: cps => (cps.mapM nat?).map .str
   | ["ptr", a] => (nat? a).map .ptr
+  | ["cdint", b, k, h] => do pure (.cdataInt (← type? b k) (← hexBytes? h))
+  | "cdfloat" :: f => (float? f).map .cdataFloat
+  | ["cdother"] => some .cdataOther
+  | ["obj", "0", i, f] => do pure (.obj false (← res? i) (← res? f))
+  | ["obj", "1", i, f] => do pure (.obj true (← res? i) (← res? f))
+  | ["nonum"] => some .noNumber
   | _ => none
 
 def step (_ : Unit) : List String → Unit × String
@@ -35,13 +63,16 @@ def step (_ : Unit) : List String → Unit × String
       match cast T src with
       | .error e => ((), s!"err {e.toString}")
       | .ok bs =>
-        match readInt T bs with
+        match cdataToInt T bs with
         | .ok i => ((), s!"ok {bytesHex bs} {i}")
         | .error e => ((), s!"err {e.toString}")
     | _, _ => ((), "bad-op")
-  | ["toptr", v] =>
-    match int? v with
-    | some v => ((), s!"ok {castToPointer v}")
+  | "toptr" :: rest =>
+    match src? rest with
+    | some src =>
+      match castToPointerSrc src with
+      | .ok a => ((), s!"ok {a}")
+      | .error e => ((), s!"err {e.toString}")
     | none => ((), "bad-op")
   | _ => ((), "bad-op")
 
